@@ -804,7 +804,7 @@ theorem commitSkip_sim (m : Mem) (hi : Inv m) :
 theorem finalize_sim (m : Mem) (ft : Nat) (hi : Inv m) :
     Inv (m.finalizeIndexes ft).1 ∧ abs (m.finalizeIndexes ft).1 = abs m := by
   have hs : SkelLex (m.rebuildIndexes [] [] ft).fillSketches m :=
-    SkelLex.trans (SkelLex.of_eq rfl rfl rfl) (rebuildIndexes_skel m [] [] ft)
+    SkelLex.trans (b := m.rebuildIndexes [] [] ft) (SkelLex.of_eq rfl rfl rfl) (rebuildIndexes_skel m [] [] ft)
   exact ⟨hs.inv hi, hs.abs⟩
 
 theorem view_compact (fs : List Frame) (c : Nat) : (compact fs c).1.map view = fs.map view := by
